@@ -513,3 +513,78 @@ func TestConcRace(t *testing.T) {
 		t.Fatal(err)
 	}
 }
+
+// ---------- directed scenario: a 304 that arrives after the entry it validated was replaced ----------
+
+type gateOrigin struct {
+	fnOrigin
+	hold    chan struct{} // closed to let held replies go
+	holdINM string        // conditional requests carrying this validator are held after the origin has decided its answer
+	held    chan struct{} // signalled when a reply is being held
+}
+
+func (o *gateOrigin) RoundTrip(req *http.Request) (*http.Response, error) {
+	resp, err := o.fnOrigin.RoundTrip(req)
+	if o.holdINM != "" && req.Header.Get("If-None-Match") == o.holdINM {
+		select {
+		case o.held <- struct{}{}:
+		default:
+		}
+		<-o.hold
+	}
+	return resp, err
+}
+
+// TestLate304 (C16/C08): the stored response is replaced while a background revalidation of its predecessor is in flight;
+// the late 304 must not be merged into the successor.
+func TestLate304(t *testing.T) {
+	out := os.Getenv("VERIF_OUT")
+	if out == "" {
+		t.Skip("VERIF_OUT not set")
+	}
+	var lines []string
+	synctest.Test(t, func(t *testing.T) {
+		dsn := registerConn(memcache.Open())
+		defer unregisterConn(dsn)
+		org := &gateOrigin{hold: make(chan struct{}), held: make(chan struct{}, 1), holdINM: fnETag(0, "a", 0)}
+		rt := httpcache.NewTransport(dsn, httpcache.WithUpstream(org))
+		do := func(method string, bump bool) (string, string, string, string) {
+			req, _ := http.NewRequest(method, "http://a.test/r0", nil)
+			req.Header.Set("X-V", "a")
+			if bump {
+				req.Header.Set("X-Bump", "1")
+			}
+			resp, err := rt.RoundTrip(req)
+			if err != nil {
+				return "ERR", "", "", ""
+			}
+			b, _ := io.ReadAll(resp.Body)
+			resp.Body.Close()
+			return resp.Header.Get("X-Httpcache-Status"), resp.Header.Get("X-Gen"), resp.Header.Get("Etag"), string(b)
+		}
+		s1, g1, _, _ := do("GET", false) // MISS, generation 0 stored
+		time.Sleep(time.Second)
+		s2, g2, _, _ := do("GET", false) // STALE; background validation of generation 0 is held at the origin (its answer: 304)
+		synctest.Wait()
+		<-org.held
+		s3, _, _, _ := do("POST", true)  // generation 1; the entry is invalidated
+		s4, g4, _, _ := do("GET", false) // MISS: generation 1 stored
+		close(org.hold)                  // the 304 for generation 0 arrives now
+		synctest.Wait()
+		time.Sleep(time.Second)
+		s5, g5, e5, b5 := do("GET", false)
+		synctest.Wait()
+		var gen int64
+		fmt.Sscan(g5, &gen)
+		consistent := b5 == fnContent(0, "a", gen) && e5 == fnETag(0, "a", gen)
+		verdict := "ok"
+		if !consistent {
+			verdict = "BAD"
+		}
+		lines = append(lines, fmt.Sprintf("LATE304 steps=%s/%s,%s/%s,%s,%s/%s,%s/%s final_gen_header=%s final_etag=%s body_is_generation_%d_content=%v %s\n",
+			s1, g1, s2, g2, s3, s4, g4, s5, g5, g5, e5, gen, b5 == fnContent(0, "a", gen), verdict))
+	})
+	if err := writeLines(filepath.Join(out, "late304.txt"), lines); err != nil {
+		t.Fatal(err)
+	}
+}
